@@ -52,3 +52,11 @@ package cloudprovider
 //@   ensures r == cpID(n)
 //@ iface cloudprovider.NodeGroup.Name(n) (r)
 //@   pure
+
+//@ iface cloudprovider.CloudProvider.GetInstance(c, node) (inst, err)
+//@   pure
+//@   ensures err == nil ==> inst != nil
+//@ iface cloudprovider.Instance.InstantiationTime(i) (t)
+//@   pure
+//@ iface cloudprovider.Instance.ID(i) (r)
+//@   pure
